@@ -276,9 +276,7 @@ class CFG(object):
             return n
         if k == "ReturnStmt":
             e = s.kids[0] if s.kids else None
-            n = self._new("return", e, s)
-            n.succ.append(("next", self.exit))
-            return n
+            return self._return(e, s)
         if k == "GotoStmt":
             tgt = self.labels.get(s.n)
             if tgt is None:
@@ -397,6 +395,43 @@ class CFG(object):
         n = self._new("stmt", e, src)
         n.succ.append(("next", nxt))
         return n
+
+    def _return(self, e, src):
+        """`return <logical expression>` is lowered to branches that end in
+        `return 1` / `return 0`, and `return c ? a : b` to two returns, so that
+        path rules see one constant (or one simple expression) per return."""
+        def ret(expr):
+            n = self._new("return", expr, src)
+            n.succ.append(("next", self.exit))
+            return n
+
+        def lit(v, like):
+            from .cfront import N
+            x = N()
+            x.k, x.v, x.t = "IntegerLiteral", str(v), "int"
+            x.f, x.l, x.c, x.le = like.f, like.l, like.c, like.le
+            x.mo, x.mi = like.mo, like.mi
+            x.kids = ()
+            return x
+        if e is None:
+            return ret(None)
+        e0 = strip_parens(e)
+        while e0.k == "ImplicitCastExpr" and e0.kids and e0.v in ("IntegralCast", "NoOp", "LValueToRValue"):
+            inner = strip_parens(e0.kids[0])
+            if inner.k in ("BinaryOperator", "UnaryOperator", "ConditionalOperator", "ParenExpr", "ImplicitCastExpr"):
+                e0 = inner
+            else:
+                break
+        logical = (e0.k == "BinaryOperator" and e0.v in ("&&", "||")) or \
+                  (e0.k == "UnaryOperator" and e0.v == "!")
+        cmp_call = e0.k == "BinaryOperator" and e0.v in ("==", "!=", "<", ">", "<=", ">=") and \
+            any(x.k == "CallExpr" for x in e0.walk())
+        if logical or cmp_call:
+            return self._cond(e0, ret(lit(1, e0)), ret(lit(0, e0)), src)
+        if e0.k == "ConditionalOperator" and not (
+                "_Py_NoneStruct" in text(e0) and False):
+            return self._cond(e0.kids[0], self._return(e0.kids[1], src), self._return(e0.kids[2], src), src)
+        return ret(e)
 
     def _cond(self, e, t, f, src):
         e0 = e
